@@ -331,7 +331,7 @@ func c03Case(ev *vlib.Evidence, driver string, idx int) {
 
 func TestC03(t *testing.T) {
 	ev := vlib.NewEvidence("C03", "exploration",
-		"(bin) the built pool binary with --contract.min-balance in {unset, off, 1, 1 gwei, 0, -1.5 s of billing, -1 ether}: refused at connect / cut off at a billed keep-alive exactly when below the minimum, error carries balance and minimum, host asked to disconnect; per case: a pool with minimum in {nil,-1e6,-1,0,1,1e6,1e20}; hosts connect with balances around the minimum (never refused); a client connects with spendable balance (all deposit/credit splits, linked or trial) in {min-1,min,min+1,far below,far above,near}; then 1-5 billed keep-alives whose charge (0,1,small,~1e6,1 hour of ns per peer) and post-charge balance class are chosen independently; oracle: refusal/cut-off iff balance-after-charge < min, reported balance = stored balance, disconnect fan-out to every connected host peering with the client; non-trivial = minimum configured (updates: and something billed); distinct = (min, class, charge class, peers, linked)")
+		"(bin) the built pool binary with --contract.min-balance in {unset, off, 1, 1 gwei, 0, -1.5 s of billing, -1 ether}: refused at connect / cut off at a billed keep-alive exactly when below the minimum, error carries balance and minimum, host asked to disconnect; per case: a pool with minimum in {nil,-1e6,-1,0,1,1e6,1e20}; hosts connect with balances around the minimum (never refused); a client connects with spendable balance (all deposit/credit splits, linked or trial) in {min-1,min,min+1,far below,far above,near}; then 1-5 billed keep-alives whose charge (0,1,small,~1e6,1 hour of ns per peer) and post-charge balance class are chosen independently; oracle: refusal/cut-off iff balance-after-charge < min, reported balance = stored balance, disconnect fan-out to every connected host peering with the client; non-trivial = minimum configured (updates: and something billed); distinct = (min, class, charge class, peers, linked); (faults) below-minimum clients connecting while the balance read fails")
 	binDone := make(chan struct{})
 	go func() {
 		defer close(binDone)
